@@ -209,7 +209,8 @@ Definition rr_parent (im : image) (e : Z) : option Z :=
   end.
 
 (* what a reader expects: the logical tree, st_nlink of a directory = 2 + logical sub-directories *)
-Definition ldirs (l : list lnode) : Z := Z.of_nat (length (filter l_is_dir l)).
+Fixpoint ldirs (l : list lnode) : Z :=
+  match l with [] => 0 | h :: t => b2z (l_is_dir h) + ldirs t end.
 Fixpoint decorate (n : lnode) : rnode :=
   match n with
   | LDir i r ks => RDir i r (2 + ldirs ks) (map decorate ks)
